@@ -176,6 +176,17 @@ func zz16Setup(start, op int) (*zzWorld, func() error) {
 		w.S.Signer = 0
 		zzMust(rsl.NewPropagationEntry(PolicyRef, landed, "https://example.com/controller", landed).Commit(w.S, true))
 		return w, func() error { return ReconcileStaging(w.S, true) }
+	case 7: // reconcile staging when staging has unapplied changes AND a change landed in the policy ref directly (diverged)
+		if start == 0 {
+			zzMust(w.zzStageAndApply(spec, w.zzBuildState(spec, []int{0}, []int{0}), 0))
+		}
+		policyTip := w.S.Ref(PolicyRef)
+		staged := w.zzBuildState(next, []int{0}, []int{0})
+		w.S.Signer = 0
+		zzMust(staged.Commit(w.S, "stage", true, true))
+		landed := w.S.RawCommit(PolicyRef, w.S.CommitInfo(policyTip).Tree, []githash.Hash{policyTip}, "propagated into policy", zzmem.Unsigned)
+		zzMust(rsl.NewPropagationEntry(PolicyRef, landed, "https://example.com/controller", landed).Commit(w.S, true))
+		return w, func() error { return ReconcileStaging(w.S, true) }
 	default: // persistent cache commit
 		if start == 0 {
 			zzMust(w.zzStageAndApply(spec, w.zzBuildState(spec, []int{0}, []int{0}), 0))
@@ -210,7 +221,7 @@ func zz16Attest(w *zzWorld, ref string) error {
 }
 
 func HarnessC16Fault() {
-	op := verif.Concrete(verif.Choice("op", 7)) // the operations the property lists (cache commits are not among them: op 7)
+	op := verif.Concrete(verif.Choice("op", 8)) // the operations the property lists (cache commits are not among them: op 8)
 	nstart := 2
 	if op == 5 {
 		nstart = 3 // empty repository, established repository, established repository with attestations
@@ -293,7 +304,7 @@ func zz16Verdict(w *zzWorld) string {
 // verdict of the branch must be the one from before or the one from after the
 // operation.
 func HarnessC16Crash() {
-	op := verif.Concrete(verif.Choice("op", 7))
+	op := verif.Concrete(verif.Choice("op", 8))
 	// established repository only: verdicts need a policy and a recorded branch
 	ref, run := zz16Setup(1, op)
 	before := zz16Verdict(ref)
